@@ -117,8 +117,24 @@ func runRefineBatch(c *Ctx, tag string, cases []*RefCase, st *RefineStats, timeo
 		return false
 	}
 	if !res.Clean() {
-		c.Fatal("TLC did not complete cleanly on batch %s (timedout=%v errors=%v)\n%s", tag, res.TimedOut, res.Errors, tail(res.Output, 3000))
-		return false
+		// An exploration that did not finish decides nothing about the cases that did not diverge - but a
+		// divergence it printed is a state it reached (and is confirmed alone afterwards): keep those, and
+		// call the run undecided only if there is none.  (Seen: a wrong output whose VM side no longer
+		// runs the commands that bound the memo, so the product of one case exhausts the time limit.)
+		found := 0
+		for _, m := range reDiverged.FindAllStringSubmatch(res.Output, -1) {
+			if _, ok := st.Diverged[m[3]]; !ok || m[1] == "DIVERGED" {
+				st.Diverged[m[3]] = m[1]
+				found++
+			}
+		}
+		if found == 0 {
+			c.Fatal("TLC did not complete cleanly on batch %s (timedout=%v errors=%v)\n%s", tag, res.TimedOut, res.Errors, tail(res.Output, 3000))
+			return false
+		}
+		fmt.Printf("note: batch %s did not finish (timedout=%v); %d divergences found before that are reported\n", tag, res.TimedOut, found)
+		st.Cases += len(cases)
+		return true
 	}
 	st.Cases += len(cases)
 	st.States += res.Distinct
